@@ -195,6 +195,30 @@ def sessions_for(ctx, n):
             base["events"] = evs
         base["desc"] = dict(kind=kind, x=x)
         out.append(base)
+    # the complete one-edit neighbourhood of a 7-9 letter string over 20 letters as reference: 290-370 distance-1 partners
+    for r in range(2):
+        sid += 1
+        x = "".join(ctx.rng.choice(nc.AA) for _ in range(7 + r))
+        nb = set()
+        for i in range(len(x) + 1):
+            for a in nc.AA:
+                nb.add(x[:i] + a + x[i:])
+                if i < len(x):
+                    nb.add(x[:i] + a + x[i + 1:])
+            if i < len(x):
+                nb.add(x[:i] + x[i + 1:])
+        nb.discard(x)
+        ref = sorted(nb) + [nc.mutate(ctx.rng, x, 3) for _ in range(5)]
+        evs = []
+        for ham in (False, True):
+            nbf = D.hamming_neighbors if ham else D.levenshtein_neighbors
+            try:
+                evs.append(dict(op="Util", fn="calculate_neighbor_numbers", ham=ham, raised=False,
+                                ret=int(D.calculate_neighbor_numbers([x], reference=set(ref), neighborhood=nbf)[0])))
+            except Exception:     # noqa: BLE001
+                evs.append(dict(op="Util", fn="calculate_neighbor_numbers", ham=ham, raised=True, ret=-1))
+        out.append(dict(sid=sid, kind="util", x=nc.enc(x), ref=[nc.enc(y) for y in ref], md=0, vpos=list(range(1, len(x) + 1)), events=evs,
+                        desc=dict(kind="util/full-neighbourhood", x=x)))
     return out
 
 
